@@ -40,6 +40,9 @@ fn values() -> Vec<QSpec> {
         q("0.001", Value::Number(n(0.001))),
         q("454", Value::Number(n(454.0))),
         q("3000000000.5", Value::Number(n(3000000000.5))),
+        // a range written larger-first, and a mixed number whose parts are large
+        q("3-2", Value::Range { start: n(3.0), end: n(2.0) }),
+        q("65536 1/65536", Value::Number(fr(65536, 1, 65536))),
         q("some", Value::Text("some".into())),
         q("a few big", Value::Text("a few big".into())),
     ]
